@@ -20,7 +20,8 @@ def eval_program(arg) -> dict:
     common.import_dznpy()
     want_mc = stream % 3 == 1
     prog, case, _rng = progrun.make_program(PROP, seed, stream, scratch, want_mc,
-                                            mc_position=['first', 'middle', 'last'][(stream // 3) % 3])
+                                            mc_position=['first', 'middle', 'last'][(stream // 3) % 3],
+                                            mc_shape=stream // 3)
     out = {'violations': [], 'counts': {}}
     flavors = ['plain'] + (['asan'] if stream % 5 == 0 else [])
     if not progrun.build_or_report(prog, case, out, flavors):
